@@ -16,12 +16,16 @@ const O_NEXT: u8 = 0;
 const O_BATCH: u8 = 1; // a = items to take from next_frames()
 const O_REBUILD: u8 = 2; // into_parts + buffered() again
 const O_DRAIN: u8 = 3; // until_exhausted (terminal)
+const O_BATCH_METHOD: u8 = 4; // a = Iterator method, b = k
+const O_FFWD: u8 = 5; // a = number of next() calls
 
-static OPS: [OpSpec; 4] = [
+static OPS: [OpSpec; 6] = [
     OpSpec { name: "next", shrink: 0 },
     OpSpec { name: "next_frames_take", shrink: 1 },
     OpSpec { name: "into_parts_rebuild", shrink: 0 },
     OpSpec { name: "drain_until_exhausted", shrink: 0 },
+    OpSpec { name: "next_frames_iterator_method", shrink: 2 },
+    OpSpec { name: "fast_forward_next", shrink: 1 },
 ];
 
 const F_PREFILL: usize = 0;
@@ -88,6 +92,12 @@ fn gen_op(r: &mut Rng, cap: usize, done: usize, steps: usize, drain_at_end: bool
     if done == steps {
         return if drain_at_end { Some(Op::k(O_DRAIN)) } else { None };
     }
+    if w[1] > 0 && r.chance(1, 12) {
+        return Some(Op::kab(O_BATCH_METHOD, r.range(1, 5), r.range(0, cap as i64 + 1)));
+    }
+    if r.chance(1, 600) {
+        return Some(Op::ka(O_FFWD, *r.pick(&[1_000i64, 32_768, 65_537, 70_000])));
+    }
     Some(match r.weighted(w) as u8 {
         O_NEXT => Op::k(O_NEXT),
         O_BATCH => Op::ka(
@@ -109,7 +119,8 @@ fn drive<F: TagFrame, S: Signal<Frame = F>>(
     src: &mut Source,
     obs: &mut Observer,
 ) -> Result<(), Violation> {
-    let cap = src.cfg("cap", 1, 130, |r| match r.below(20) {
+    let cap = src.cfg("cap", 1, 140_000, |r| match r.below(20) {
+        0 if r.chance(1, 400) => *r.pick(&[46_511i64, 65_535, 65_537, 100_000]),
         0..=3 => 1,
         4..=7 => 2,
         8 => *r.pick(&[15i64, 16, 17, 31, 32, 33, 64, 65, 100, 128]),
@@ -207,6 +218,42 @@ fn drive<F: TagFrame, S: Signal<Frame = F>>(
                 }
                 check_eq!(obs, got, want, "buffered.batch", "next_frames().take({}) with {} buffered", k, avail);
             }
+            O_BATCH_METHOD => {
+                // provided Iterator methods of BufferedFrames == their default definitions over pop()
+                let variant = op.a.rem_euclid(crate::tree::N_ITER_VARIANTS);
+                let k = op.b.clamp(0, 200) as usize;
+                if m.buf.is_empty() {
+                    m.refill(obs);
+                    obs.probe(P_REFILL_BY_BATCH);
+                }
+                let items: Vec<F> = m.buf.iter().copied().collect();
+                let want = crate::tree::model_iter_variant(&items, variant, k);
+                // which of the buffered frames were consumed: everything the default method pulls
+                let consumed = match variant {
+                    0 | 2 | 3 | 4 => items.len(),
+                    1 => items.len(), // nth(k) then the rest is collected
+                    _ => items.len(),
+                };
+                for _ in 0..consumed {
+                    m.buf.pop_front();
+                }
+                let hint = bs.next_frames().size_hint();
+                let _ = hint;
+                let got = crate::tree::apply_iter_variant(bs.next_frames(), variant, k);
+                check_eq!(obs, got, want, "buffered.batch-method", "next_frames() through Iterator method variant {} (k = {}) with {} buffered", variant, k, items.len());
+            }
+            O_FFWD => {
+                let n = op.a.clamp(1, 80_000) as u64;
+                for _ in 0..n {
+                    if m.buf.is_empty() {
+                        m.refill(obs);
+                    }
+                    let want = m.buf.pop_front().unwrap();
+                    let got = bs.next();
+                    check_eq!(obs, got, want, "buffered.frame", "next() during a fast-forward of {} frames", n);
+                }
+                obs.note(n);
+            }
             O_REBUILD => {
                 let (s, rb) = b.take().unwrap().into_parts();
                 if !rb.is_empty() {
@@ -220,7 +267,7 @@ fn drive<F: TagFrame, S: Signal<Frame = F>>(
                 let taken = b.take().unwrap();
                 let mut got = Vec::new();
                 let mut it = taken.until_exhausted();
-                for _ in 0..10_000 {
+                for _ in 0..400_000 {
                     match it.next() {
                         Some(f) => got.push(f),
                         None => break,
